@@ -2,7 +2,8 @@
 (* Cases for C44: the expression pool, singly and combined.                 *)
 EXTENDS Integers, Sequences, FiniteSets, TLC, Json, IOUtils, SequencesExt, Randomization, ExprPool
 Thorough == "TIER" \in DOMAIN IOEnv /\ IOEnv.TIER = "thorough"
-Sub(S, n) == IF Thorough \/ Cardinality(S) <= n THEN S ELSE RandomSubset(n, S)
+\* (the thorough tier samples three times as many of each operand set)
+Sub(S, n) == LET m == IF Thorough THEN 3 * n ELSE n IN IF Cardinality(S) <= m THEN S ELSE RandomSubset(m, S)
 Scalar == Nums \cup Atoms \cup Arith \cup Funs \cup Calc \cup Shared
 Comb0 == {TOp(k, <<a, b>>) : k \in {"add", "mul", "pow"}, a, b \in Sub(Scalar, 12)}
 Comb == {TOp(k, <<a, b>>) : k \in {"add", "mul", "pow", "div"}, a \in Sub(Scalar, 40), b \in Sub(Scalar, 25)}
